@@ -1309,3 +1309,66 @@ Proof.
       with (match url_unescape (url_escape s) with Some r => ystr r | None => YErr end).
     rewrite U. reflexivity.
 Qed.
+
+(* ------------------------------------------------------------------ ysem and the reference semantics *)
+From SV Require Import Proofs.ExprEvalProofs.
+
+(* a call that fn_call gives a value has an admissible number of arguments *)
+Lemma fn_call_arity : forall n vs v, fn_call n vs = FOk v ->
+  exists a, fx_arity n = Some a /\ arity_ok a (length vs) = true.
+Proof.
+  intros n vs v H. unfold fn_call in H.
+  repeat match type of H with
+  | (if ?c then _ else _) = _ =>
+      let E := fresh "E" in
+      destruct c eqn:E;
+      [ try (apply orb_true_iff in E; destruct E as [E|E]);
+        apply bytes_eqb_iff in E; subst n;
+        (eexists; split; [reflexivity|]);
+        destruct vs as [|x1 [|x2 [|x3 [|x4 l]]]];
+        first [ reflexivity
+              | (simpl in H; discriminate H)
+              | (unfold fn_num1, fn_str1, fn_pad in H; simpl in H; discriminate H)
+              | (destruct x1; simpl in H; discriminate H)
+              | (destruct x1; destruct x2; simpl in H; discriminate H) ]
+      | ]
+  end.
+  discriminate H.
+Qed.
+
+Definition lift_row (r : xrow) : yrow := map (fun kv => (fst kv, YS (snd kv))) r.
+Lemma ylookup_lift : forall r k, ylookup (lift_row r) k = option_map YS (xlookup r k).
+Proof.
+  induction r as [|[k' v] r IH]; intros k; simpl; [reflexivity|].
+  destruct (bytes_eqb k k'); [reflexivity|apply IH].
+Qed.
+
+(* where the reference semantics gives a call expression a value, the model of the built-ins gives the
+   same value (or leaves the expression outside its fragment: a computed zero that is rendered as text) *)
+Theorem ysem_consistent_with_sem : forall row e v,
+  sem row e = Some v -> cols_ok row Strict e = true ->
+  ysem (lift_row row) e = YOk (YS v) \/ ysem (lift_row row) e = YUnm.
+Proof.
+  intros row e. induction e using xexpr_ind'; intros v Hs Hc; simpl in Hs; try (right; reflexivity).
+  - inversion Hs; subst. left. reflexivity.
+  - inversion Hs; subst. left. reflexivity.
+  - simpl in Hc. simpl. rewrite ylookup_lift. destruct (xlookup row s) as [v0|]; [|discriminate].
+    inversion Hs; subst. left. reflexivity.
+  - (* call *)
+    simpl in Hc. destruct (omapM (sem row) args) as [vs|] eqn:Em; [|discriminate].
+    destruct (fn_call g vs) as [v0| |] eqn:Ef; try discriminate. inversion Hs; subst v0.
+    assert (M : ymapM (ysem (lift_row row)) args = LOk (map YS vs) \/ ymapM (ysem (lift_row row)) args = LUnm).
+    { clear Ef Hs. revert vs Em Hc. induction H as [|a args Ha Hargs IH]; intros vs Em Hc.
+      - simpl in Em. inversion Em; subst. left. reflexivity.
+      - simpl in Em. simpl in Hc. apply andb_true_iff in Hc. destruct Hc as [Hc1 Hc2].
+        destruct (sem row a) as [va|] eqn:Ea; [|discriminate].
+        destruct (omapM (sem row) args) as [vs'|] eqn:Em'; [|discriminate].
+        inversion Em; subst. simpl.
+        destruct (Ha va eq_refl Hc1) as [Ha'|Ha']; rewrite Ha'; [|right; reflexivity].
+        destruct (IH vs' eq_refl Hc2) as [IH'|IH']; rewrite IH'; [left; reflexivity|right; reflexivity]. }
+    simpl. destruct M as [M|M]; rewrite M; [|right; reflexivity].
+    destruct (renders_text g && computed_zero args (map YS vs)); [right; reflexivity|].
+    left. destruct (fn_call_arity g vs v Ef) as [a [Ha Hk]].
+    apply (proj1 (fx_call_extends_fn_call g a vs Ha Hk)). exact Ef.
+  - simpl in Hc. simpl. apply IHe; assumption.
+Qed.
